@@ -176,11 +176,11 @@ Example C08_put_atomic_nonvacuous :
   /\ lookup (tmp_name [97]) (snd (put_chunk [97] [[1; 2]; [3]] None true [EOk; EOk; EDie 1] old)) = Some [1; 2; 3]
   (* short write inside the first buffer, the retry of the remainder fails (file-size limit): reported, old kept *)
   /\ put_chunk_noraise [97] [[1; 2]; [3]] None true [EOk; EShort 1; EErr B_OSError] old
-     = (Some (Ret (Some K_ChunkNotFound)), [(tmp_name [97], [1]); (final_name [97], [9])])
+     = (Some (Ret (Some K_StoreUnavailable)), [(tmp_name [97], [1]); (final_name [97], [9])])
   (* short write, the retry succeeds: complete chunk *)
   /\ final (put_chunk [97] [[1; 2]; [3]] None true [EOk; EShort 1] old) = Some [1; 2; 3]
   (* direct branch, 3-byte chunk padded to 4: 2 bytes stored -> error; 3 bytes stored -> complete after the cut *)
-  /\ fst (put_chunk [97] [[1; 2; 3; 0]] (Some 3%nat) true [EOk; EShort 2] old) = Some (Raise K_ChunkNotFound)
+  /\ fst (put_chunk [97] [[1; 2; 3; 0]] (Some 3%nat) true [EOk; EShort 2] old) = Some (Raise K_StoreUnavailable)
   /\ final (put_chunk [97] [[1; 2; 3; 0]] (Some 3%nat) true [EOk; EShort 2] old) = Some [9]
   /\ final (put_chunk [97] [[1; 2; 3; 0]] (Some 3%nat) true [EOk; EShort 3] old) = Some [1; 2; 3].
 Proof. vm_compute. repeat split. Qed.
@@ -441,14 +441,75 @@ Theorem C08_s3_error_classes :
 Proof. exact s3_classes. Qed.
 Print Assumptions C08_s3_error_classes.
 
-(* open finding C08-F5c, as a theorem about the faithful model: the NPY store's read path maps nothing to
-   StoreUnavailable and absorbs a PermissionError as a missing chunk (filler for flags and for the other arrays) *)
-Theorem C08_npy_read_unavailable_refuted :
-  classes_mapped_to SNpy K_StoreUnavailable = [] /\
-  exists e, isinst e B_OSError = true /\ e <> B_FileNotFoundError /\
-            vfw_getter AOther SNpy (LRaise e) = Ret Placeholder /\ vfw_getter AFlags SNpy (LRaise e) = Ret DefaultFill.
-Proof. exact npy_read_unavailable_refuted. Qed.
-Print Assumptions C08_npy_read_unavailable_refuted.
+(* finding C08-F5c (REPAIRED): the NPY store reports every OS error of a read other than "no such file" (EACCES, ENOTDIR,
+   EISDIR, EIO, connection / timeout errors of a network file system: every OSError subclass of the enum) as
+   StoreUnavailable; neither getter of vis_flags_weights turns it into filler; on any needed chunk of a data set it fails
+   the load (not zero-filled, not flagged).  Full strength over the enum / all data sets. *)
+Theorem C08_npy_oserrors_are_unavailable : forall e k,
+  isinst e B_OSError = true -> isinst e B_FileNotFoundError = false ->
+  isinst (standard_errors (error_map SNpy) e) K_StoreUnavailable = true /\
+  vfw_getter k SNpy (LRaise e) = Raise (standard_errors (error_map SNpy) e).
+Proof. intros e k H1 H2. split; [exact (npy_oserror_is_unavailable e H1 H2)|exact (npy_oserror_not_filled k e H1 H2)]. Qed.
+Print Assumptions C08_npy_oserrors_are_unavailable.
+
+Theorem C08_npy_unreadable_store_fails_load : forall ds a id e,
+  d_store ds = SNpy -> In (a, id) (needed ds) -> d_low ds a id = LRaise e ->
+  isinst e B_OSError = true -> isinst e B_FileNotFoundError = false ->
+  exists u, isinst u K_StoreUnavailable = true /\ In u (load_errors ds) /\ load_errors ds <> [] /\
+            chunk_missing ds a id = false.
+Proof. exact npy_unreadable_store_fails_load. Qed.
+Print Assumptions C08_npy_unreadable_store_fails_load.
+
+(* teeth: with the error map of the unrepaired source nothing was a StoreUnavailable and PermissionError was filler *)
+Theorem C08_npy_read_unavailable_refuted_before_fix :
+  filter (fun e => isinst (standard_errors npy_map_before_f5b e) K_StoreUnavailable) all_exn = [] /\
+  standard_errors npy_map_before_f5b B_PermissionError = K_ChunkNotFound /\
+  isinst B_PermissionError B_OSError = true /\ isinst B_PermissionError B_FileNotFoundError = false.
+Proof. exact npy_read_unavailable_refuted_before_fix. Qed.
+Print Assumptions C08_npy_read_unavailable_refuted_before_fix.
+
+(* ==== undecodable chunks that are NOT a prefix of a valid one (findings C08-F5b / C08-F5d, REPAIRED) ====
+   S3ChunkStore.get_chunk on an object with ANY content (all byte strings, any header parser): the stored body, or a
+   ChunkStoreError -- never a raw exception, never other data (C08_data_only_if_decodes).  Full strength.
+   NpyFileChunkStore.get_chunk on a file with ANY content, or no file: the same -- GUARD (hence _partial): the file does
+   not start with a zip signature.  With one, np.load takes its NpzFile branch: an archive that is not well formed
+   raises zipfile.BadZipFile, which the repaired map reports as ChunkNotFound (C08_undecodable_classes_are_mapped; the
+   model reads EVERY zip-signature file this way), but a WELL-FORMED zip archive under a chunk name comes back as an
+   NpzFile object and get_chunk raises AttributeError outside the guarded block: open finding C08-F5h. *)
+Theorem C08_s3_any_object_is_reported : forall (parse_hdr : bytes -> option hdr) bs want e,
+  s3_get_chunk parse_hdr bs want = Raise e -> isinst e K_ChunkStoreError = true.
+Proof. exact s3_any_object_is_reported. Qed.
+Print Assumptions C08_s3_any_object_is_reported.
+
+Theorem C08_npy_any_file_is_reported_partial : forall (parse_hdr : bytes -> option hdr) file want e,
+  (forall bs, file = Some bs -> np_load parse_hdr bs <> Err EZip) ->
+  npy_get_chunk parse_hdr file want = Raise e -> isinst e K_ChunkStoreError = true.
+Proof. intros p file want e _. exact (npy_any_file_is_reported p file want e). Qed.
+Print Assumptions C08_npy_any_file_is_reported_partial.
+
+(* the classes a decoder raises on such bytes, through the translated maps: NPY -> ChunkNotFound (EOFError, ValueError,
+   BadZipFile, TokenError), S3 -> BadChunk (ValueError, TokenError) / S3ServerGlitch (truncation) *)
+Theorem C08_undecodable_classes_are_mapped :
+  forallb (fun e => exn_eqb (standard_errors (error_map SNpy) e) K_ChunkNotFound)
+          [B_EOFError; B_ValueError; Z_BadZipFile; T_TokenError; B_UnicodeDecodeError] = true /\
+  forallb (fun e => exn_eqb (standard_errors (error_map SS3) e) K_BadChunk)
+          [B_ValueError; T_TokenError; B_UnicodeDecodeError] = true /\
+  standard_errors (error_map SS3) U_MaxRetryError = K_S3ServerGlitch /\
+  isinst K_ChunkNotFound K_ChunkStoreError = true /\ isinst K_BadChunk K_ChunkStoreError = true /\
+  isinst K_S3ServerGlitch K_ChunkStoreError = true.
+Proof. exact undecodable_classes_are_mapped. Qed.
+Print Assumptions C08_undecodable_classes_are_mapped.
+
+(* teeth: with the maps of the unrepaired source these classes escaped as raw exceptions *)
+Theorem C08_undecodable_raw_before_fix :
+  standard_errors npy_map_before_f5b Z_BadZipFile = Z_BadZipFile /\
+  standard_errors npy_map_before_f5b T_TokenError = T_TokenError /\
+  standard_errors s3_map_before_f5d B_ValueError = B_ValueError /\
+  standard_errors s3_map_before_f5d T_TokenError = T_TokenError /\
+  isinst Z_BadZipFile K_ChunkStoreError = false /\ isinst T_TokenError K_ChunkStoreError = false /\
+  isinst B_ValueError K_ChunkStoreError = false.
+Proof. exact undecodable_raw_before_fix. Qed.
+Print Assumptions C08_undecodable_raw_before_fix.
 
 (* ==== histories of puts to one chunk name (any number of puts, each with its own list of environment answers: crashes,
    errors, short writes, leftovers of a dead writer's temp file) ====
@@ -577,18 +638,18 @@ Proof.
 Qed.
 Print Assumptions C08_s3_source_is_modelled.
 
-(* WRITE.  _raise_for_status (translated range, chain and classes) raises for EVERY status in 400..599 that is not
+(* WRITE.  _raise_for_status (translated range, chain and classes) raises for EVERY status in 300..599 that is not
    ignored -- client and server errors alike -- and for nothing else; what it raises is a chunk-store error that the S3
    error map passes unchanged *)
 Theorem C08_s3_every_error_status_raises : forall ign s,
-  (400 <= s < 600 -> memZ s ign = false ->
+  (300 <= s < 600 -> memZ s ign = false ->
    exists e, raise_for_status ign s = Some e /\ standard_errors (error_map SS3) e = e /\ isinst e K_ChunkStoreError = true)
-  /\ (forall e, raise_for_status ign s = Some e -> 400 <= s < 600 /\ memZ s ign = false).
+  /\ (forall e, raise_for_status ign s = Some e -> 300 <= s < 600 /\ memZ s ign = false).
 Proof. exact every_error_status_raises. Qed.
 Print Assumptions C08_s3_every_error_status_raises.
 
 (* request(): for every force list, every number of status retries, every ignored list and every sequence of server
-   answers all of which are refusals (an error status that is not ignored, or an attempt failing inside requests) the
+   answers all of which are refusals (a 3xx / 4xx / 5xx status that is not ignored, or an attempt failing inside requests) the
    request raises a chunk-store error; it returns only a status the server gave to an attempt actually made *)
 Theorem C08_s3_refused_request_raises : forall fl ign answers n,
   Forall (refusal ign) answers ->
@@ -598,36 +659,55 @@ Print Assumptions C08_s3_refused_request_raises.
 
 Theorem C08_s3_request_returns_only_accepted : forall fl ign answers n s,
   request_run fl n ign answers = Ret s ->
-  In (AStatus s) (firstn (request_attempts fl n answers) answers) /\ ~ (400 <= s < 600 /\ memZ s ign = false).
+  In (AStatus s) (firstn (request_attempts fl n answers) answers) /\ ~ (300 <= s < 600 /\ memZ s ign = false).
 Proof. exact request_returns_only_accepted. Qed.
 Print Assumptions C08_s3_request_returns_only_accepted.
 
-(* "a failed put is reported rather than swallowed" on the S3 store, for every status class of refusals (GUARD: every
-   answer is a 4xx / 5xx status or an attempt failing inside requests -- see the _refuted statement below for what
-   lies outside): put_chunk raises, put_chunk_noraise returns that error object, nothing reached the store; success
-   only after a non-error answer *)
-Theorem C08_s3_failed_put_is_reported_partial : forall rc answers,
+(* "a failed put is reported rather than swallowed" on the S3 store, FULL strength (finding C08-F5g repaired: the guard
+   "every answer is a 4xx / 5xx status" is gone).  For every Retry configuration and EVERY list of server answers --
+   final HTTP responses (status 200..599; 1xx are interim responses that never reach requests as the result) or attempts
+   failing inside requests -- : if no attempt that was made got a 2xx answer (nothing was stored), put_chunk raises a
+   chunk-store error and put_chunk_noraise returns that error object; and success is reported only when the object
+   was stored. *)
+Theorem C08_s3_failed_put_is_reported : forall rc answers,
+  Forall final_answer answers ->
+  stored_after (forcelist rc) (status_retries rc) answers = false ->
+  exists e, s3_put_chunk rc true answers = Raise e /\ isinst e K_ChunkStoreError = true
+            /\ s3_put_chunk_noraise rc true answers = Ret (Some e).
+Proof. exact s3_failed_put_is_reported. Qed.
+Print Assumptions C08_s3_failed_put_is_reported.
+
+Theorem C08_s3_put_success_means_stored : forall rc answers,
+  Forall final_answer answers ->
+  (s3_put_chunk rc true answers = Ret tt \/ s3_put_chunk_noraise rc true answers = Ret None) ->
+  stored_after (forcelist rc) (status_retries rc) answers = true.
+Proof. exact s3_put_success_means_stored. Qed.
+Print Assumptions C08_s3_put_success_means_stored.
+
+(* the instance for refusals (3xx / 4xx / 5xx not ignored, failing attempts), with "nothing is stored" as a conclusion *)
+Theorem C08_s3_refused_put_is_reported : forall rc answers,
   Forall (refusal []) answers ->
   (exists e, s3_put_chunk rc true answers = Raise e /\ isinst e K_ChunkStoreError = true
              /\ s3_put_chunk_noraise rc true answers = Ret (Some e))
   /\ stored_after (forcelist rc) (status_retries rc) answers = false.
 Proof. exact s3_refused_put_is_reported. Qed.
-Print Assumptions C08_s3_failed_put_is_reported_partial.
+Print Assumptions C08_s3_refused_put_is_reported.
 
-(* finding C08-F5g (open): a PUT answered 301 without a Location header (nothing for requests to follow) is not a 2xx,
-   yet success is reported and nothing is stored *)
-Theorem C08_s3_failed_put_is_reported_refuted :
-  exists s, accepted s = false /\ error_status s = false
-            /\ s3_put_chunk (default_retry 0) true [AStatus s] = Ret tt
-            /\ s3_put_chunk_noraise (default_retry 0) true [AStatus s] = Ret None
-            /\ stored_after (forcelist (default_retry 0)) (status_retries (default_retry 0)) [AStatus s] = false.
-Proof. exact failed_put_is_reported_refuted. Qed.
-Print Assumptions C08_s3_failed_put_is_reported_refuted.
+(* teeth: finding C08-F5g before the repair -- with the status test `400 <= status < 600` a PUT answered 301 without a
+   Location header (nothing for requests to follow) raised nothing; the translated test reports it *)
+Theorem C08_s3_failed_put_is_reported_refuted_before_fix :
+  raise_for_status_errors_only [] 301 = None /\ accepted 301 = false
+  /\ raise_for_status [] 301 = Some K_StoreUnavailable
+  /\ s3_put_chunk (default_retry 0) true [AStatus 301] = Raise K_StoreUnavailable
+  /\ s3_put_chunk_noraise (default_retry 0) true [AStatus 301] = Ret (Some K_StoreUnavailable)
+  /\ stored_after (forcelist (default_retry 0)) (status_retries (default_retry 0)) [AStatus 301] = false.
+Proof. exact failed_put_is_reported_refuted_before_fix. Qed.
+Print Assumptions C08_s3_failed_put_is_reported_refuted_before_fix.
 
 Theorem C08_s3_put_success_means_accepted : forall rc answers,
   s3_put_chunk_noraise rc true answers = Ret None ->
   exists s, In (AStatus s) (firstn (request_attempts (forcelist rc) (status_retries rc) answers) answers)
-            /\ ~ (400 <= s < 600).
+            /\ ~ (300 <= s < 600).
 Proof. exact s3_put_success_means_accepted. Qed.
 Print Assumptions C08_s3_put_success_means_accepted.
 
@@ -652,9 +732,25 @@ Theorem C08_s3_mark_complete_reports : forall rc bucket marker,
       exists e, s3_mark_complete rc bucket marker = Raise e /\ isinst e K_ChunkStoreError = true)
   /\ (s3_mark_complete rc bucket marker = Ret tt ->
       exists s, In (AStatus s) (firstn (request_attempts (forcelist rc) (status_retries rc) marker) marker)
-                /\ ~ (400 <= s < 600)).
+                /\ ~ (300 <= s < 600)).
 Proof. exact s3_mark_complete_reports. Qed.
 Print Assumptions C08_s3_mark_complete_reports.
+
+(* full strength for put_dask_array and mark_complete: a block of which nothing was stored has its error object in its
+   slot; mark_complete reports success only when the marker object was stored *)
+Theorem C08_s3_put_dask_array_reports_unstored : forall rc blocks res,
+  s3_put_dask_array rc blocks = Ret res ->
+  forall i a, nth_error blocks i = Some a -> Forall final_answer a ->
+    stored_after (forcelist rc) (status_retries rc) a = false ->
+    exists e, nth_error res i = Some (Some e) /\ isinst e K_ChunkStoreError = true.
+Proof. exact s3_put_dask_array_reports_unstored. Qed.
+Print Assumptions C08_s3_put_dask_array_reports_unstored.
+
+Theorem C08_s3_mark_complete_success_means_stored : forall rc bucket marker,
+  Forall final_answer marker -> s3_mark_complete rc bucket marker = Ret tt ->
+  stored_after (forcelist rc) (status_retries rc) marker = true.
+Proof. exact s3_mark_complete_success_means_stored. Qed.
+Print Assumptions C08_s3_mark_complete_success_means_stored.
 
 (* teeth / examples: a status test that only covers 4xx (seeded change 8) lets 507 through; the translated one does not *)
 Theorem C08_s3_client_errors_only_refutes :
